@@ -673,8 +673,21 @@ pub fn run_scenario(out: &mut Out, scn: &Value) {
         0 => None,
         d => Some(VertexId(d - 1)),
     };
-    let result = alg.run_vertex_oriented(src, dst, &query, &dir, &b.si);
-    let calls = b.rec.take();
+    let edge_mode = scn["orient"].as_str().unwrap_or("vertex") == "edge";
+    let adjacent = edge_mode && dst == Some(src);
+    let result = if edge_mode {
+        let odst = match ju(&scn["odst"]) {
+            0 => None,
+            e => Some(EdgeId(e - 1)),
+        };
+        alg.run_edge_oriented(EdgeId(ju(&scn["osrc"]) - 1), odst, &query, &dir, &b.si)
+    } else {
+        alg.run_vertex_oriented(src, dst, &query, &dir, &b.si)
+    };
+    let mut calls = b.rec.take();
+    if adjacent {
+        calls.clear(); // no search: the two edges are traversed directly
+    }
     // the first call of a search towards a target is the estimate for the origin
     let body: &[Call] = match (dst, calls.first()) {
         (Some(_), Some(Call::E { .. })) => &calls[1..],
@@ -803,7 +816,29 @@ pub fn gen_scenario(r: &mut StdRng, o: &GenOpts) -> Value {
         "init": if r.gen_bool(0.2) { json!([r.gen_range(0..1000), r.gen_range(0..1000)]) } else { json!([0, 0]) },
         "units": {"distance": "meters", "time": "seconds", "speed": "mps", "delay": "seconds"},
         "cls": [], "allowed_on": false, "allowed": [], "est_mode": "real", "hscript": [],
+        "orient": "vertex", "osrc": 0, "odst": 0,
     });
+    // edge-oriented queries: origin / destination given as edges (forward searches, as the application runs them)
+    let edge_oriented = match o.focus.as_str() {
+        "c01" | "c03" | "c05" => r.gen_bool(0.3),
+        "c13" | "c20" | "c06" => false,
+        _ => r.gen_bool(0.1),
+    };
+    if edge_oriented {
+        let osrc = r.gen_range(1..=ne);
+        let mut odst = r.gen_range(0..=ne);
+        if odst == osrc {
+            odst = if osrc == ne { if ne > 1 { 1 } else { 0 } } else { osrc + 1 };
+        }
+        scn["orient"] = json!("edge");
+        scn["osrc"] = json!(osrc);
+        scn["odst"] = json!(odst);
+        scn["dir"] = json!("fwd");
+        scn["wf_src"] = json!("alg");   // the edge-oriented entry point takes the configured weight factor
+        // the searched part runs between the origin edge's end vertex and the destination edge's start vertex
+        scn["src"] = scn["E"][osrc - 1][1].clone();
+        scn["dst"] = if odst == 0 { json!(0) } else { scn["E"][odst - 1][0].clone() };
+    }
     if with_cls {
         let ncls = r.gen_range(1..=4u8);
         let cls: Vec<u8> = (0..ne).map(|_| r.gen_range(0..ncls)).collect();
